@@ -503,6 +503,21 @@ def arr_sum(a):
     return C(I(a.length))
 
 
+def array_extreme(ip, a, name, lineno):
+    """a.max() / a.min() / np.max(a) of a non-empty 1-D array (obligation): an element of the array (Skolem witness) that bounds every
+    element.  EXACT under the obligation (NumPy raises ValueError for an empty array)."""
+    M.use("ndarray.%s (attained bound, witness)" % name)
+    c = ip.ctx
+    f, n = a.snapshot(), a.length
+    c.check("%s:%s.of.nonempty@L%s" % (c.fname, name, lineno), I(n) >= 1, "safety", lineno, "max/min of an empty array raises")
+    r, w = c.fresh_int("arr" + name), c.fresh_int(name + "_at")
+    c.assume(in_range(w, n), I(f(w)) == r)
+    c.index_terms.append(w)
+    sch = Forall(lambda k: Implies(in_range(k, n), (I(f(k)) <= r) if name == "max" else (I(f(k)) >= r)), triggers=[], name="array.%s.bounds" % name)
+    c.assume(sch)
+    return r
+
+
 def concat_list2(arrs, lineno):
     """row-wise concatenation of 2-D arrays with equal column counts (obligation)"""
     M.use("np.concatenate (list of fixed count)")
@@ -653,7 +668,7 @@ def call_method(ip, obj, fam, name, args, kwargs, lineno):
         if name in ("any", "all"):
             return call_np(ip, name, [a], {}, lineno)
         if name == "max" or name == "min":
-            raise Unsupported("array %s" % name)
+            return array_extreme(ip, a, name, lineno)
         raise Unsupported("array method %s" % name)
     if fam == "arr2":
         a = obj
